@@ -32,15 +32,16 @@
    Timers: _send_i_frame arms the retransmission ("receiver ready poll") timer
    (_start_receiver_ready_poll, which also zeroes the poll counter); _update_ack_seq
    disarms it when _last_acked_tx_seq == _next_tx_seq.  When it fires
-   (_receiver_ready_poll) an RR with final=1 is sent and the monitor timer is armed;
-   while _monitor_handle is set (a TimerHandle is truthy even after it has fired)
-   _process_output sends nothing; _update_ack_seq clears it when a frame with final != 0
-   carries an acceptable acknowledgement.  When the monitor timer fires (_monitor) another
-   RR(final=1) is sent and the timer re-armed while the poll counter is below
-   peer_max_retransmission (or that is <= 0); otherwise only an error is logged and the
-   dead handle keeps blocking the output.  These four events are the labels
-   TimeoutRetxA/B and TimeoutMonA/B; the theorems of C08 are stated for schedules WITHOUT
-   them (no_timer), and Proofs/Ertm.v shows by a counterexample that this is necessary.
+   (_receiver_ready_poll) an RR with P=1 is sent (after fixes/D08t.patch; before it the
+   frame carried F=1 and nothing ever answered it) and the monitor timer is armed; while
+   _monitor_handle is set (a TimerHandle is truthy even after it has fired)
+   _process_output sends nothing.  The peer answers an RR/RNR with P=1 by RR with F=1, and
+   _update_ack_seq clears the monitor handle when a frame with F=1 carries an acceptable
+   acknowledgement.  When the monitor timer fires (_monitor) another poll is sent and the
+   timer re-armed while the poll counter is below peer_max_retransmission (or that is
+   <= 0); otherwise only an error is logged and the dead handle keeps blocking the output
+   until the outstanding poll is answered.  These four events are the labels
+   TimeoutRetxA/B and TimeoutMonA/B.
    The sink is a pure consumer (it does not write from inside on_sdu).
    Bytes are Z in [0,256); sequence numbers are Z. *)
 From Coq Require Import ZArith List Bool.
@@ -209,13 +210,19 @@ Definition on_frame (e : ep) (f : frame) : ep * list frame * list (list Z) :=
       else (e2, out1, [])
   end.
 
+(* _send_s_frame(RR, final=0, poll=1) *)
+Definition send_poll (e : ep) : ep * list frame :=
+  (mkEp (e_pmps e) (e_pwin e) (e_next e) (e_lack e) (e_pend e) (e_txw e) (e_busy e)
+        (e_req e) (e_req e) (e_insdu e) (e_tm e),
+   [SFrame RR true false (e_req e)]).
+
 (* ---- timer events.  _receiver_ready_poll: the retransmission timer fires *)
 Definition retx_timeout (e : ep) : ep * list frame :=
   if e_rrarm e then
-    (* _send_receiver_ready_poll (counter + 1, RR final=1), _start_monitor *)
-    send_rr (mkEp (e_pmps e) (e_pwin e) (e_next e) (e_lack e) (e_pend e) (e_txw e) (e_busy e)
-                  (e_req e) (e_lackrx e) (e_insdu e)
-                  (false, MonArmed, e_polls e + 1, e_pmaxretx e)) true
+    (* _send_receiver_ready_poll (counter + 1, RR with P=1), _start_monitor *)
+    send_poll (mkEp (e_pmps e) (e_pwin e) (e_next e) (e_lack e) (e_pend e) (e_txw e) (e_busy e)
+                    (e_req e) (e_lackrx e) (e_insdu e)
+                    (false, MonArmed, e_polls e + 1, e_pmaxretx e))
   else (e, []).
 
 (* _monitor: the monitor timer fires *)
@@ -223,9 +230,9 @@ Definition mon_timeout (e : ep) : ep * list frame :=
   match e_mon e with
   | MonArmed =>
       if (e_pmaxretx e <=? 0) || (e_polls e <? e_pmaxretx e) then
-        send_rr (mkEp (e_pmps e) (e_pwin e) (e_next e) (e_lack e) (e_pend e) (e_txw e) (e_busy e)
-                      (e_req e) (e_lackrx e) (e_insdu e)
-                      (e_rrarm e, MonArmed, e_polls e + 1, e_pmaxretx e)) true
+        send_poll (mkEp (e_pmps e) (e_pwin e) (e_next e) (e_lack e) (e_pend e) (e_txw e) (e_busy e)
+                        (e_req e) (e_lackrx e) (e_insdu e)
+                        (e_rrarm e, MonArmed, e_polls e + 1, e_pmaxretx e))
       else
         (* "Max retransmission exceeded": nothing sent, the handle stays set *)
         (mkEp (e_pmps e) (e_pwin e) (e_next e) (e_lack e) (e_pend e) (e_txw e) (e_busy e)
@@ -252,7 +259,7 @@ Inductive label :=
 
 Definition is_timer (l : label) : bool :=
   match l with TimeoutRetxA | TimeoutRetxB | TimeoutMonA | TimeoutMonB => true | _ => false end.
-(* the assumption of the C08 theorems: no timer fires *)
+(* schedules in which no timer fires *)
 Definition no_timer (sched : list label) : bool := forallb (fun l => negb (is_timer l)) sched.
 
 (* A segments by B's MPS and is limited by B's window, and vice versa *)
@@ -389,6 +396,46 @@ Definition dec_frame (payload : list Z) : option frame :=
       else
         Some (SFrame ((b0 / 4) mod 4) (Z.odd (b0 / 16)) (Z.odd (b0 / 128)) (b1 mod 128))
   | _ => None
+  end.
+
+(* ---- one endpoint against an arbitrary (foreign, possibly hostile) peer: the inputs are
+   local writes, timer firings and ANY incoming frame - given as a frame or as the raw
+   payload ClassicChannel.on_pdu hands to the processor (fewer than 2 bytes: from_bytes
+   raises IndexError before anything is changed) *)
+Inductive elabel :=
+| EWrite (sdu : list Z)
+| ERecv (f : frame)
+| ERecvRaw (payload : list Z)
+| ERetx
+| EMon.
+
+Definition estep (e : ep) (l : elabel) : ep * list frame * list (list Z) :=
+  match l with
+  | EWrite sdu => let '(e', out) := send_sdu e sdu in (e', out, [])
+  | ERecv f => on_frame e f
+  | ERecvRaw payload =>
+      match dec_frame payload with
+      | Some f => on_frame e f
+      | None => (e, [], [])
+      end
+  | ERetx => let '(e', out) := retx_timeout e in (e', out, [])
+  | EMon => let '(e', out) := mon_timeout e in (e', out, [])
+  end.
+
+Fixpoint erun (e : ep) (ls : list elabel) : ep * list frame * list (list Z) :=
+  match ls with
+  | [] => (e, [], [])
+  | l :: r =>
+      let '(e1, out1, sd1) := estep e l in
+      let '(e2, out2, sd2) := erun e1 r in
+      (e2, out1 ++ out2, sd1 ++ sd2)
+  end.
+
+Fixpoint ewrites (ls : list elabel) : list (list Z) :=
+  match ls with
+  | [] => []
+  | EWrite sdu :: r => sdu :: ewrites r
+  | _ :: r => ewrites r
   end.
 
 (* observables for the correspondence check *)
